@@ -349,19 +349,133 @@ def lookalike_family(ctx: Ctx, spec: dict[str, Any]) -> None:
         ctx.sample({"kind": "lookalike-family", "source": em.source, "output": got})
 
 
+class Catalog:
+    """A message catalog keyed by the EXACT message ids (and contexts) it was built from;
+    anything else comes back untranslated, as gettext does."""
+
+    def __init__(self, table: dict[str, str]):
+        self.table = dict(table)
+        self.asked: list[str] = []
+
+    def _get(self, key: str, default: str) -> str:
+        self.asked.append(key)
+        return self.table.get(key, default)
+
+    def gettext(self, message: str) -> str:
+        return self._get(message, message)
+
+    def ngettext(self, singular: str, plural: str, n: int) -> str:
+        return self._get(singular if n == 1 else plural, singular if n == 1 else plural)
+
+    def pgettext(self, context: str, message: str) -> str:
+        return self._get(f"{context}\x04{message}", message)
+
+    def npgettext(self, context: str, singular: str, plural: str, n: int) -> str:
+        m = singular if n == 1 else plural
+        return self._get(f"{context}\x04{m}", m)
+
+
+def _translated(msgid: str) -> str:
+    """A 'translation' that keeps placeholders and white space, and changes every other letter."""
+    out, i = [], 0
+    while i < len(msgid):
+        if msgid.startswith("%(", i):
+            j = msgid.index(")s", i) + 2
+            out.append(msgid[i:j])
+            i = j
+        else:
+            out.append(msgid[i].upper() if msgid[i].islower() else ("_" + msgid[i] if msgid[i].isupper() else msgid[i]))
+            i += 1
+    return "".join(out)
+
+
+# text of translate blocks: {mK} are marker slots ("" | - | ~ | +), W is white space of the case
+TRANSLATE_SKELETONS = [
+    "a{%{m0} translate you: who {m1}%}WHello,W{{{m2} you {m3}}}!W{%{m4} endtranslate {m5}%}b",
+    "a{%{m0} translate you: who, count: n {m1}%}WHello,W{{{m2} you {m3}}}!W{%{m4} plural {m5}%}WHellos,W{{{m6} you {m7}}}W({{{m8} count {m9}}})W"
+    "{%{m10} endtranslate {m11}%}b",
+    "{%{m0} translate context: 'greeting', you: who {m1}%}HiW{{{m2} you {m3}}}W,WwelcomeWbackW{%{m4} endtranslate {m5}%}",
+    "x{%{m0} translate count: n, context: 'cart' {m1}%}{{{m2} count {m3}}}WitemW{%{m4} plural {m5}%}W{{{m6} count {m7}}}WitemsW{%{m8} endtranslate {m9}%}y",
+    "{%{m0} translate {m1}%}WjustWtextW{%{m2} endtranslate {m3}%}{%{m4} translate you: who {m5}%}{{{m6} you {m7}}}{%{m8} endtranslate {m9}%}",
+]
+
+
+def translate_family(ctx: Ctx, spec: dict[str, Any]) -> None:
+    """The literal text of a translate block is the key into the message catalog: markers on
+    the placeholders / plural tag inside the block, and the default trim mode, may change white
+    space of the OUTPUT only, never which message is looked up.  The catalog is built from the
+    ids asked for with no marker and no trimming; every other assignment must produce the same
+    translated text once white space is removed."""
+    import re as _re
+
+    rng = random.Random(f"{spec['seed']}:translate:{spec['i']}")
+    ws_pool = [" ", "  ", "\n", "\n  ", "\t", " \r\n ", "\u00a0", "\u2003 "]
+    src = out = None
+    for j in range(spec["per"]):
+        skel = TRANSLATE_SKELETONS[j % len(TRANSLATE_SKELETONS)]
+        w = rng.choice(ws_pool)
+        skel = skel.replace("W", w)
+        nslots = len(set(_re.findall(r"\{m(\d+)\}", skel)))
+
+        def source(A: list[str]) -> str:
+            t = skel
+            for k in range(nslots - 1, -1, -1):
+                t = t.replace("{m%d}" % k, A[k])
+            return t
+
+        for n in (1, 3):
+            probe = Catalog({})
+            data = {"who": "World", "n": n, "translations": probe}
+            base_src = source([""] * nslots)
+            try:
+                env = c01.make_env(("+", False, False), {})
+                env.from_string(base_src).render(**data)
+            except Exception as e:  # noqa: BLE001
+                ctx.count("translate_baseline_failed")
+                ctx.note(f"translate skeleton does not render: {type(e).__name__}: {base_src[:80]!r}")
+                continue
+            table = {k: _translated(k) for k in probe.asked}
+            if not table:
+                ctx.count("translate_baseline_without_lookup")
+                continue
+            base = c01.real_render(("+", False, False), base_src, {}, {"who": "World", "n": n, "translations": Catalog(table)})
+            if base[0] != "ok" or strip_ws(_translated("x")) == strip_ws("x"):
+                continue
+            for _ in range(10):
+                A = [rng.choice(E.MARKERS) if rng.random() < 0.6 else "" for _ in range(nslots)]
+                trim = rng.choice("+-~")
+                sup = rng.random() < 0.5
+                src = source(A)
+                cat = Catalog(table)
+                out = c01.real_render((trim, sup, False), src, {}, {"who": "World", "n": n, "translations": cat})
+                ctx.ev()
+                ctx.count("translate_marker_assignments")
+                ctx.nt("translate", src, trim, sup, n)
+                if out[0] != "ok" or strip_ws(out[1]) != strip_ws(base[1]):
+                    ctx.violation(
+                        f"ws-control:translate-block:message-changes-with-markers:trim={trim}",
+                        f"no markers, no trimming: {base[1]!r}; with markers {A} and default trim {trim}: {out!r}",
+                        {"source": src, "partials": {}, "data": {"who": "World", "n": n}, "cfg": [trim, sup, False],
+                         "base": [base[0], base[1]], "catalog": table, "markers": A})
+                    break
+    if src is not None:
+        ctx.sample({"kind": "translate-family", "source": src, "output": out})
+
+
 def shards(tier: str, seed: int) -> list[dict[str, Any]]:
     n = 16
     per = 60 if tier == "quick" else 350
     return [{"kind": "gen", "i": i, "n": n, "per": per} for i in range(n)] + [
         {"kind": "suppress", "i": i, "n": 2} for i in range(2)] + [
-        {"kind": "lookalike", "i": i, "n": 2, "per": 400 if tier == "quick" else 8000} for i in range(2)]
+        {"kind": "lookalike", "i": i, "n": 2, "per": 400 if tier == "quick" else 8000} for i in range(2)] + [
+        {"kind": "translate", "i": i, "n": 2, "per": 60 if tier == "quick" else 1200} for i in range(2)]
 
 
 def floors(tier: str) -> dict[str, int]:
     k = 1 if tier == "quick" else 20
     return {"marker_assignments": 20000 * k, "programs_exhaustive": 100 * k, "suppression_pairs": 300 * k,
             "verbatim_checks": 100 * k, "suppression_family_renders": 5000, "exact_trim_checks": 5000 * k,
-            "lookalike_renders": 3000 * k}
+            "lookalike_renders": 3000 * k, "translate_marker_assignments": 1500 * k}
 
 
 def run_shard(spec: dict[str, Any], ctx: Ctx) -> None:
@@ -371,13 +485,19 @@ def run_shard(spec: dict[str, Any], ctx: Ctx) -> None:
     if spec["kind"] == "lookalike":
         lookalike_family(ctx, spec)
         return
+    if spec["kind"] == "translate":
+        translate_family(ctx, spec)
+        return
     for j in range(spec["per"]):
         run_program(ctx, f"{spec['seed']}:{spec['i']}", j, spec["tier"])
 
 
 def replay(wit: dict[str, Any], ctx: Ctx) -> None:
     cfg = tuple(wit["cfg"])
-    got = c01.real_render(cfg, wit["source"], wit.get("partials") or {}, wit.get("data") or {})
+    data = dict(wit.get("data") or {})
+    if "catalog" in wit:
+        data["translations"] = Catalog(wit["catalog"])
+    got = c01.real_render(cfg, wit["source"], wit.get("partials") or {}, data)
     base = wit["base"]
     print("replay C18: source =", repr(wit["source"]))
     print("            partials =", wit.get("partials"))
